@@ -30,8 +30,13 @@ def _centre(X):
     return A - A.mean(axis=0)
 
 
-def h_cross(B, cls="CPCCA", n=4, p=2, q=2, k=2, alpha=1.0, cplx=False, metrics=True):
+def h_cross(B, cls="CPCCA", n=4, p=2, q=2, k=2, alpha=1.0, cplx=False, metrics=True, illcond=False):
     X = da2d(B, "x", n, p, cplx, feat="x")
+    if illcond:
+        # same symbolic generality (image under an invertible diagonal map), but the WITNESS has one feature in units of 1e-5:
+        # feature standard deviations differ by 1e5, inside the property's range of scales
+        X = X * xr.DataArray(np.array([1.0] + [1e-5] * (p - 1)), dims=("x",), coords={"x": X["x"].values})
+        X.name = "v_x"
     Y = da2d(B, "y", n, q, cplx, feat="y")
     model = M.cross(cls, n_modes=k, alpha=alpha, use_pca=False)
     model.fit(X, Y, "time")
@@ -93,11 +98,15 @@ def configs(tier):
     out = []
 
     def add(fn, key, **params):
-        out.append({"key": key, "fn": fn, "params": params, "options": {"full_rank": True, "hermitian_psd_inputs": True, "budget_s": 100 if tier == "quick" else 900}})
+        o = {"full_rank": True, "hermitian_psd_inputs": True, "budget_s": 100 if tier == "quick" else 900}
+        if params.get("illcond"):
+            o["float_rtol"] = 1e-4  # replay tolerance for a witness with condition number 1e5 (rounding ~ cond^2 * eps)
+        out.append({"key": key, "fn": fn, "params": params, "options": o})
 
     add("h_cross", "MCA|p2q2", cls="MCA")
     add("h_cross", "MCA|p3q2", cls="MCA", p=3, q=2)
     add("h_cross", "CCA|p2q2", cls="CCA")
+    add("h_cross", "CCA|p2q2|witness with feature scales 1 and 1e-5", cls="CCA", illcond=True, metrics=False)
     add("h_cross", "CPCCA|alpha=0.5|p2q2", cls="CPCCA", alpha=0.5)
     add("h_cross", "ComplexMCA|p2q2", cls="ComplexMCA", cplx=True)
     add("h_cross", "ComplexCCA|p2q2", cls="ComplexCCA", cplx=True, metrics=False)
